@@ -46,14 +46,20 @@ class Script:
         #                                              batch is fixed by the worker time stamps in the real run)
         self.suggestions: List[tuple] = []
         self.crit: List[bool] = []
+        self.specdel: Dict[int, List[int]] = {}   # loop-end index -> trials whose checkpoint the remover deletes
 
     @staticmethod
     def from_hist(hist: List[dict]) -> "Script":
         s = Script()
         obs = 0
         pend = {}
+        le = 0
         for h in hist:
             a = h["a"]
+            if a == "T_SpecDelete":
+                s.specdel.setdefault(le, []).append(h["t"])
+            elif a == "T_LoopEnd":
+                le += 1
             if a in ("W_Emit", "W_Exit", "W_Fail", "W_ExtStop"):
                 s.wev.setdefault(obs, []).append((a, h["t"]))
             elif a in OBS_ACTIONS:
@@ -78,7 +84,8 @@ class Script:
     def to_json(self):
         return {"wev": {str(k): v for k, v in self.wev.items()},
                 "decisions": {str(k): v for k, v in self.decisions.items()},
-                "suggestions": self.suggestions, "crit": self.crit}
+                "suggestions": self.suggestions, "crit": self.crit,
+                "specdel": {str(k): v for k, v in self.specdel.items()}}
 
     @staticmethod
     def from_json(d) -> "Script":
@@ -87,6 +94,7 @@ class Script:
         s.decisions = {int(k): list(v) for k, v in d["decisions"].items()}
         s.suggestions = [tuple(x) for x in d["suggestions"]]
         s.crit = list(d["crit"])
+        s.specdel = {int(k): list(v) for k, v in d.get("specdel", {}).items()}
         return s
 
 
@@ -350,6 +358,25 @@ class Recorder(TunerCallback):
     MAX_TRIALS = 38
 
 
+class ScriptedRemover(TunerCallback):
+    """An early-removal callback (speculative removal explicitly requested): at the end of the k-th iteration it
+    deletes the checkpoints the script names -- but, like every such callback, only of trials that are paused."""
+
+    def __init__(self, script: Script):
+        self.script, self.k, self.tuner = script, 0, None
+
+    def on_tuning_start(self, tuner):
+        self.tuner = tuner
+
+    def on_loop_end(self):
+        k = self.k
+        self.k += 1
+        seen = self.tuner.tuning_status.last_trial_status_seen
+        for t in self.script.specdel.get(k, []):
+            if seen.get(t) == Status.paused:
+                self.tuner.trial_backend.delete_checkpoint(t)
+
+
 def instrument_scheduler(sched, log):
     """Wrap the public methods of a (scripted or real) scheduler INSTANCE; the class is untouched."""
     o_sug, o_res = sched.suggest, sched.on_trial_result
@@ -421,7 +448,8 @@ def run_tuner(conf: dict, script: Script, scheduler=None, stop_criterion=None, v
         asynchronous_scheduling=conf.get("async", True),
         wait_trial_completion_when_stopping=conf.get("wait", False),
         start_jobs_without_delay=conf.get("sjwd", True),
-        callbacks=[store, Recorder(log)] + list(extra_callbacks), save_tuner=False,
+        callbacks=[store, Recorder(log)] + ([ScriptedRemover(script)] if conf.get("spec") and scheduler is None else [])
+        + list(extra_callbacks), save_tuner=False,
     )
     o_stop = tuner._stop_condition
 
